@@ -93,6 +93,16 @@ def check(run):
         for _ in range(6 if quick else 40):
             a, b = sorted(rnd.sample(range(17), 2))
             runs.append({"tag": "wiring", "argv": [codes(x) for x in ["vers", "contains", "vers:%s/>=%s|<%s" % (sc, ch[sc][a], ch[sc][b]), rnd.choice(ch[sc])]]})
+    # VERS front end on the universes' own members (mixed case, build metadata, epochs): one-constraint
+    # ranges are always well-formed, so the CLI must print exactly the library's answer for the text as given
+    for sc in versgen.SCHEMES:
+        pool = acc[versgen.ECO_OF.get(sc, sc)]
+        cased = [t for t in pool if t.lower() != t] or pool
+        for _ in range(10 if quick else 60):
+            b = rnd.choice(cased if rnd.random() < 0.6 else pool)
+            p = rnd.choice(pool if rnd.random() < 0.7 else [b, b.lower(), b.upper()])
+            pre = rnd.choice(["vers:%s/" % sc] * 6 + ["VERS:%s/" % sc, "vers:%s/" % sc.upper(), "Vers:%s/" % sc.capitalize()])
+            runs.append({"tag": "wiring", "argv": [codes(x) for x in ["vers", "contains", pre + rnd.choice(["<", "<=", ">", ">=", "=", "!=", ""]) + b, p]]})
     rnd.shuffle(runs)
     nsh = 8
     shards = [runs[i::nsh] for i in range(nsh)]
